@@ -590,6 +590,32 @@ func (lr *lifeRun) act(a string) string {
 			return r
 		}
 		return "gone"
+	case "portoff": // portoff:<p|t>: the application disables the port in the configuration while the server runs
+		if f[1] == "t" {
+			lr.srv.SetTLSPort(0)
+		} else {
+			lr.srv.SetPort(0)
+		}
+		return "ok"
+	case "porton": // porton:<p|t>: ... and restores it
+		if f[1] == "t" {
+			lr.srv.SetTLSPort(lr.tlsPort)
+		} else {
+			lr.srv.SetPort(lr.plain)
+		}
+		return "ok"
+	case "cfgport": // cfgport:<id>:<p|t>: a connected client disables the port with CONFIG SET
+		if cl := lr.clients[f[1]]; cl != nil {
+			name := "port"
+			if f[2] == "t" {
+				name = "tls-port"
+			}
+			if r := roundTrip(cl.conn, reqS("CONFIG", "SET", name, "0")); r != "+OK" {
+				return r
+			}
+			return "ok"
+		}
+		return "gone"
 	case "tlsbad": // tlsbad:<kind>[:id]
 		return lr.tlsBad(f[1], f)
 	case "obs":
